@@ -7,6 +7,7 @@ subscript index or returned value is derived from a quantity that is neither inv
 shift nor an instant that moves with it (ISO year / week number, .year/.month/.day, replace(month|day|year),
 relativedelta(months|years), instant-vs-constant comparison).  If all decisions are invariant the shifted
 run takes the same decisions step by step and every produced instant moves by the offset.
+R14.2: every relativedelta(...) offset uses relative (plural) fields only; singular fields set an absolute calendar field.
 Not decided: the relation between two concrete runs; non-UTC zones (DST) are outside the property's premise.
 """
 from __future__ import annotations
@@ -56,7 +57,71 @@ def eqv_function(ctx: Ctx, rule: str, qual: str):
     return len(fs)
 
 
+_RELATIVE = {"years", "months", "weeks", "days", "hours", "minutes", "seconds", "microseconds", "leapdays"}
+_ABSOLUTE = {"year", "month", "day", "hour", "minute", "second", "microsecond", "weekday", "yearday", "nlyearday"}
+
+
+def _delta_keywords(fn, call):
+    """keyword names a relativedelta(...) call can receive; None if they cannot be enumerated"""
+    import ast as _a
+    from ..order import local_resolver
+    names = set()
+    for k in call.keywords:
+        if k.arg is not None:
+            names.add(k.arg)
+            continue
+        v = k.value
+        if isinstance(v, _a.Name):
+            vals = local_resolver(fn.node)(v)
+            if len(vals) != 1:
+                return None
+            v = vals[0]
+        if not isinstance(v, _a.Dict):
+            return None
+        for key in v.keys:
+            if isinstance(key, _a.Constant) and isinstance(key.value, str):
+                names.add(key.value)
+                continue
+            # key computed from a literal table: {"d": "days", ...}[unit]  /  table.get(unit)
+            cands = [key]
+            if isinstance(key, _a.Name):
+                cands = local_resolver(fn.node)(key)
+            got = False
+            for c in cands:
+                d = c.value if isinstance(c, _a.Subscript) else (c.func.value if isinstance(c, _a.Call) and isinstance(c.func, _a.Attribute)
+                                                                 and c.func.attr == "get" else None)
+                if isinstance(d, _a.Name):
+                    dv = local_resolver(fn.node)(d)
+                    d = dv[0] if len(dv) == 1 else None
+                if isinstance(d, _a.Dict) and all(isinstance(x, _a.Constant) and isinstance(x.value, str) for x in d.values):
+                    names |= {x.value for x in d.values}
+                    got = True
+            if not got:
+                return None
+    return names
+
+
 def run(ctx: Ctx):
+    import ast as _a
+    from ..model import Inconclusive, own_nodes
     for q in SCOPE:
         eqv_function(ctx, "R14.1", q)
     ctx.floor("R14.1", len(SCOPE))
+    # ---------------------------------------------------------------- R14.2 date offsets are relative
+    n = 0
+    for fn in sorted(ctx.repo.all_funcs(), key=lambda f: f.key):
+        for c in own_nodes(fn):
+            if isinstance(c, _a.Call) and norm(c.func).split(".")[-1] == "relativedelta":
+                kws = _delta_keywords(fn, c)
+                if kws is None:
+                    raise Inconclusive(f"{fn.qual}: keyword names of {norm(c)[:60]} cannot be enumerated")
+                n += 1
+                absolute = sorted(kws & _ABSOLUTE)
+                unknown = sorted(kws - _ABSOLUTE - _RELATIVE)
+                ok = not absolute and not unknown
+                ctx.ob("R14.2", f"{fn.qual}: {norm(c)[:60]} keywords {sorted(kws)}", (fn, c), ok,
+                       "relative offset: the result moves with the date it is added to" if ok else
+                       f"relativedelta({', '.join(absolute or unknown)}=...) SETS that calendar field instead of adding to it: the result depends on "
+                       "the day of month / year of the start date, so a shifted project gets a different frame",
+                       key=key_of("R14.2", fn, None, norm(c)[:60]))
+    ctx.floor("R14.2", 8)
